@@ -42,8 +42,15 @@ type KnownFinding struct {
 	Status   string          `json:"status"` // "known" | "fixed"
 	Check    string          `json:"check,omitempty"`
 	Witness  json.RawMessage `json:"witness,omitempty"` // a case for Check
-	What     string          `json:"what"`
+	// Witnesses: further (check, case) pairs of the same root cause (e.g. API-level and unit-level)
+	Witnesses []Witness `json:"witnesses,omitempty"`
+	What      string    `json:"what"`
 	Commit   string          `json:"commit,omitempty"`
+}
+
+type Witness struct {
+	Check string          `json:"check"`
+	Case  json.RawMessage `json:"case"`
 }
 
 type stats struct {
@@ -374,13 +381,26 @@ func loadKnown(prop string) {
 // fails enables its matcher; one that passes leaves it disabled (strict oracle again).
 func replayKnown() {
 	for _, k := range known {
-		fn := replays[k.Check]
-		if fn == nil {
-			st.Infra = append(st.Infra, fmt.Sprintf("known finding %s: no replay function %q", k.ID, k.Check))
+		ws := k.Witnesses
+		if k.Check != "" {
+			ws = append([]Witness{{k.Check, k.Witness}}, ws...)
+		}
+		tried, failedAny := 0, false
+		for _, w := range ws {
+			fn := replays[w.Check]
+			if fn == nil {
+				continue // a witness for another package of this property
+			}
+			tried++
+			w := w
+			if failed, _ := Probe(func(t TB) { fn(t, w.Case) }); failed {
+				failedAny = true
+			}
+		}
+		if tried == 0 {
 			continue
 		}
-		failed, _ := Probe(func(t TB) { fn(t, k.Witness) })
-		if failed {
+		if failedAny {
 			st.KnownStill = append(st.KnownStill, k.ID)
 		} else {
 			st.KnownGone = append(st.KnownGone, k.ID)
